@@ -467,7 +467,9 @@ Proof. intros Hf H. rewrite (safe_history_keeps_store _ _ _ _ Hf H). reflexivity
 (* the generated class table is well formed: GraphQL names, exact types                        *)
 (* ------------------------------------------------------------------------------------------ *)
 Definition wf_arg (am : argmeta) : Prop := am_type am = am_exact am.
-Definition wf_field (fm : fieldmeta) : Prop := fm_emit fm = fm_gql fm /\ Forall wf_arg (fm_args fm).
+Definition wf_field (fm : fieldmeta) : Prop :=
+  fm_emit fm = fm_gql fm /\ Forall wf_arg (fm_args fm) /\
+  (fm_method fm = false -> can_fields (fm_okind fm) = false).
 Definition wf_ct (ct : list classmeta) : Prop := Forall (fun cm => Forall wf_field (cm_fields cm)) ct.
 
 Lemma arg_metas_wf c l : Forall wf_arg (map (arg_meta c) l).
@@ -476,11 +478,14 @@ Proof. apply Forall_forall. intros am H. apply in_map_iff in H as [a [<- _]]. re
 Lemma field_meta_wf c s owner f : wf_field (field_meta c s owner f).
 Proof.
   unfold field_meta, wf_field. destruct (kind_of s (final_name (fd_type f))); simpl;
-    (split; [reflexivity | apply arg_metas_wf]).
+    (split; [reflexivity | split; [apply arg_metas_wf|]]); try reflexivity;
+    rewrite orb_true_r; discriminate.
 Qed.
 
 Lemma root_field_meta_wf c s f : wf_field (root_field_meta c s f).
-Proof. unfold root_field_meta, wf_field. simpl. split; [reflexivity | apply arg_metas_wf]. Qed.
+Proof.
+  unfold root_field_meta, wf_field. simpl. split; [reflexivity | split; [apply arg_metas_wf | discriminate]].
+Qed.
 
 Theorem gen_classes_wf c s q m : wf_ct (gen_classes c s q m).
 Proof.
@@ -513,24 +518,90 @@ Proof.
   rewrite Forall_forall in Hw. apply Hw. exact Hfm.
 Qed.
 
-(* the generated serialize expression computes the specified element-wise serialisation on every
-   value that has no None at a non-null item position *)
-Lemma ser_t_spec : forall t top v, nn_ok top t v = true -> ser_t top t v = ser_spec t v.
+Lemma omap_map_in {X Y} (f : X -> option Y) (g : X -> Y) l :
+  (forall x, In x l -> f x = Some (g x)) -> omap f l = Some (map g l).
+Proof.
+  induction l as [|x r IH]; simpl; intro H; [reflexivity|].
+  rewrite (H x (or_introl eq_refl)), IH; [reflexivity|]. intros y Hy. apply H. right. exact Hy.
+Qed.
+
+Lemma omap_map_inv {X Y} (f : X -> option Y) (g : X -> Y) l :
+  omap f l = Some (map g l) -> forall x, In x l -> f x = Some (g x).
+Proof.
+  induction l as [|x r IH]; simpl; intros H y Hy; [contradiction|].
+  destruct (f x) as [a|] eqn:Ea; [|discriminate]. destruct (omap f r) as [b|] eqn:Eb; [|discriminate].
+  injection H as -> ->. destruct Hy as [<-|Hy]; [exact Ea | apply IH; [reflexivity | exact Hy]].
+Qed.
+
+Lemma lst_items_ok f g it v :
+  (forall x, nn_ok false it x = true -> f x = Some (g x)) ->
+  match v with JArr l => forallb (nn_ok false it) l | _ => false end = true ->
+  lst f v = Some (lsts g v).
+Proof.
+  intros H Hv. destruct v; try discriminate. simpl.
+  rewrite (omap_map_in f g); [reflexivity|]. intros x Hx. apply H.
+  rewrite forallb_forall in Hv. apply Hv. exact Hx.
+Qed.
+
+Lemma lst_items_bad f g it v :
+  (forall x, nn_ok false it x = false -> f x <> Some (g x)) -> is_null v = false ->
+  match v with JArr l => forallb (nn_ok false it) l | _ => false end = false ->
+  lst f v <> Some (lsts g v).
+Proof.
+  intros H Hn Hv. destruct v; simpl; try discriminate.
+  intro Heq. destruct (omap f l) as [b|] eqn:Eo; [|discriminate]. simpl in Heq. injection Heq as ->.
+  assert (Hall : forallb (nn_ok false it) l = true).
+  { apply forallb_forall. intros x Hx. destruct (nn_ok false it x) eqn:E; [reflexivity|].
+    exfalso. apply (H x E). eapply omap_map_inv; eassumption. }
+  congruence.
+Qed.
+
+(* the generated serialize expression computes the specified element-wise serialisation EXACTLY on the
+   values of the argument's type (arrays at list positions, no None at a non-null item position);
+   on every other value it raises or serialises a None *)
+Lemma ser_t_spec : forall t top v, nn_ok top t v = true -> ser_t top t v = Some (ser_spec t v).
 Proof.
   induction t as [n|it IH|t' IH]; intros top v H.
-  - reflexivity.
-  - simpl in *. unfold guardn. destruct (is_null v); [reflexivity|].
-    destruct v; simpl in *; try reflexivity. f_equal. apply map_ext_in. intros x Hx.
-    apply IH. rewrite forallb_forall in H. apply H. exact Hx.
-  - simpl in H. apply andb_true_iff in H as [H1 H2].
-    assert (He : match t' with TList it => lst (ser_t false it) v | _ => ser v end
-                 = match t' with TList it => lst (ser_spec it) v | _ => ser v end).
-    { destruct t' as [n|it|t'']; try reflexivity.
+  - simpl. unfold guardo, guardn. destruct (is_null v); reflexivity.
+  - simpl in *. unfold guardo, guardn. destruct (is_null v) eqn:En; [reflexivity|]. simpl in H.
+    apply (lst_items_ok _ _ it); [|exact H]. intros x Hx. apply IH. exact Hx.
+  - simpl in *. destruct t' as [n|it|t''].
+    + unfold guardo, guardn. destruct top; simpl in H.
+      * destruct (is_null v); reflexivity.
+      * destruct (is_null v); [discriminate | reflexivity].
+    + assert (Hl : forall x, nn_ok false it x = true -> ser_t false it x = Some (ser_spec it x)).
+      { intros x Hx. specialize (IH false (JArr [x])). simpl in IH. rewrite Hx in IH.
+        specialize (IH eq_refl). unfold guardo, guardn in IH. simpl in IH.
+        destruct (ser_t false it x); [|discriminate]. injection IH as ->. reflexivity. }
+      unfold guardo, guardn. destruct (is_null v) eqn:En.
+      * destruct top; [reflexivity|]. simpl in H. destruct v; discriminate.
+      * assert (Hi : match v with JArr l => forallb (nn_ok false it) l | _ => false end = true)
+          by (destruct top; simpl in H; exact H).
+        rewrite (lst_items_ok _ _ it _ Hl Hi). destruct top; reflexivity.
+    + unfold guardo, guardn. destruct top; simpl in H.
+      * destruct (is_null v); reflexivity.
+      * destruct (is_null v); [discriminate | reflexivity].
+Qed.
+
+Lemma ser_t_tight : forall t top v, nn_ok top t v = false -> ser_t top t v <> Some (ser_spec t v).
+Proof.
+  induction t as [n|it IH|t' IH]; intros top v H.
+  - discriminate.
+  - simpl in *. apply orb_false_iff in H as [Hn Hi]. unfold guardo, guardn. rewrite Hn.
+    apply (lst_items_bad _ _ it); [|exact Hn|exact Hi]. intros x Hx. apply IH. exact Hx.
+  - simpl in *. destruct t' as [n|it|t''].
+    + apply orb_false_iff in H as [-> Hn]. apply negb_false_iff in Hn.
+      unfold guardn. rewrite Hn. destruct v; discriminate.
+    + assert (Hl : forall x, nn_ok false it x = false -> ser_t false it x <> Some (ser_spec it x)).
+      { intros x Hx Heq. apply (IH false (JArr [x])).
+        - simpl. rewrite Hx. reflexivity.
+        - simpl. unfold guardo, guardn. simpl. rewrite Heq. reflexivity. }
+      apply orb_false_iff in H as [Ht Hi]. unfold guardo, guardn.
       destruct (is_null v) eqn:En.
-      - destruct v; try discriminate. reflexivity.
-      - specialize (IH false v H2). simpl in IH. unfold guardn in IH. rewrite En in IH. exact IH. }
-    simpl. rewrite He. destruct top; [reflexivity|]. simpl in H1.
-    unfold guardn. destruct (is_null v); [discriminate | reflexivity].
+      * rewrite andb_true_r in Ht. subst top. destruct v; discriminate.
+      * pose proof (lst_items_bad _ _ it v Hl En Hi) as Hb. destruct top; exact Hb.
+    + apply orb_false_iff in H as [-> Hn]. apply negb_false_iff in Hn.
+      unfold guardn. rewrite Hn. destruct v; discriminate.
 Qed.
 
 Lemma ser_spec_null t v : is_null (ser_spec t v) = is_null v.
@@ -549,10 +620,11 @@ Proof.
   unfold wf_arg in Ha. unfold arg_value in Hc1.
   assert (G : forall v, (negb (am_ser am) || nn_ok true (am_ty am) v = true) ->
             forall vs,
-            (if is_null (if am_ser am then ser_t true (am_ty am) v else v) then vs
-             else {| v_name := am_gql am; v_type := am_type am;
-                     v_value := if am_ser am then ser_t true (am_ty am) v else v |} :: vs)
-            = (if is_null v then vs
+            match (if am_ser am then ser_t true (am_ty am) v else Some v) with
+            | Some v' => Some (if is_null v' then vs
+                               else {| v_name := am_gql am; v_type := am_type am; v_value := v' |} :: vs)
+            | None => None end
+            = Some (if is_null v then vs
                else {| v_name := am_gql am; v_type := am_exact am;
                        v_value := if am_ser am then ser_spec (am_ty am) v else v |} :: vs)).
   { intros v Hv vs. rewrite Ha. destruct (am_ser am); [|reflexivity]. simpl in Hv.
@@ -770,7 +842,7 @@ Proof.
     rewrite <- Hemit. apply sim_sh; [apply nth_store0; exact En | reflexivity | reflexivity].
   - simpl in He, Hi. destruct (find_fm ct c f) as [fm|] eqn:Ef; [|discriminate].
     destruct (fm_method fm && args_known (fm_args fm) a); [|discriminate].
-    destruct (find_fm_wf _ _ _ _ Hw Ef) as [Hemit Hargs].
+    destruct (find_fm_wf _ _ _ _ Hw Ef) as [Hemit [Hargs _]].
     simpl in Hcf. rewrite Ef in Hcf.
     rewrite (call_vars_exact a _ Hargs Hcf) in He.
     destruct (ideal_vars (fm_args fm) a) as [vs|]; [|discriminate].
@@ -1213,3 +1285,205 @@ Proof.
   rewrite IH. apply mem_false in Hx. rewrite Hx. reflexivity.
 Qed.
 
+
+(* ------------------------------------------------------------------------------------------ *)
+(* Totality: a well-formed expression builds (no exception), with fuel = depth of its ideal + 1 *)
+(* ------------------------------------------------------------------------------------------ *)
+Lemma collect_total idx : forall vs used, exists r, collect idx used vs = Some r.
+Proof.
+  induction vs as [|v r IH]; intro used; simpl; [eauto|].
+  destruct (format_variable_name_total idx (v_name v) used) as [u ->].
+  destruct (IH (u :: used)) as [[u2 fs] ->]. eauto.
+Qed.
+
+Lemma store0_no_fields ct k d subs frs : wf_ct ct ->
+  nth_error (store0 ct) k = Some (N d subs frs) -> can_fields (d_kind d) = false.
+Proof.
+  intros Hw H. unfold store0 in H. rewrite nth_error_map in H.
+  destruct (nth_error (attrs ct) k) as [p|] eqn:En; [|discriminate]. simpl in H. injection H as <- _ _.
+  destruct (attrs_wf ct Hw p (nth_error_In _ _ En)) as [_ [_ Hk]]. simpl. apply Hk.
+  unfold attrs in En. apply nth_error_In in En. apply in_flat_map in En as [cm [_ Hp]].
+  apply in_map_iff in Hp as [fm [<- Hfm]]. apply filter_In in Hfm as [_ Hm]. simpl.
+  apply negb_true_iff in Hm. exact Hm.
+Qed.
+
+Lemma ideals_evals ct es :
+  Forall (fun e => forall ni, g_shared e = true -> g_conform ct e = true -> ideal ct e = Some ni ->
+                   exists n, eval ct e (store0 ct) = Some (store0 ct, n)) es ->
+  forall nis, forallb g_shared es = true -> forallb (g_conform ct) es = true ->
+  ideals ct es = Some nis -> exists ns, evals ct es (store0 ct) = Some (store0 ct, ns).
+Proof.
+  induction 1 as [|x r Hx Hr IH]; intros nis Hg Hc Hi; simpl in *; [eauto|].
+  apply andb_true_iff in Hg as [G1 G2]. apply andb_true_iff in Hc as [C1 C2].
+  destruct (ideal ct x) as [ni|] eqn:I1; [|discriminate].
+  destruct (ideals ct r) as [nis2|] eqn:I2; [|discriminate].
+  destruct (Hx _ G1 C1 eq_refl) as [n ->]. destruct (IH _ G2 C2 eq_refl) as [ns ->]. eauto.
+Qed.
+
+(* whenever the expression denotes a request, evaluating it right after import succeeds *)
+Lemma ideal_eval ct : wf_ct ct -> forall e ni,
+  g_shared e = true -> g_conform ct e = true -> ideal ct e = Some ni ->
+  exists n, eval ct e (store0 ct) = Some (store0 ct, n).
+Proof.
+  intros Hw. induction e using bexpr_ind'; intros ni Hg Hcf Hi.
+  - simpl in *. destruct (resolve_attr ct c f) as [[k fm]|]; [eauto | discriminate].
+  - simpl in *. destruct (find_fm ct c f) as [fm|] eqn:Ef; [|discriminate].
+    destruct (fm_method fm && args_known (fm_args fm) a); [|discriminate].
+    destruct (find_fm_wf _ _ _ _ Hw Ef) as [_ [Hargs _]].
+    rewrite (call_vars_exact a _ Hargs Hcf).
+    destruct (ideal_vars (fm_args fm) a); [eauto | discriminate].
+  - simpl in Hg. rewrite g_shared_fix in Hg. apply andb_true_iff in Hg as [G1 G2].
+    simpl in Hcf. rewrite g_conform_fix in Hcf. apply andb_true_iff in Hcf as [C1 C2].
+    simpl in Hi. rewrite ideals_fix in Hi.
+    destruct (ideal ct e) as [ni0|] eqn:I1; [|discriminate].
+    destruct (ideals ct es) as [nis|] eqn:I2; [|destruct ni0; discriminate].
+    destruct (IHe _ G1 C1 eq_refl) as [n0 E0].
+    pose proof (eval_sim ct Hw _ _ _ _ G1 C1 E0 I1) as Hs.
+    destruct ni0 as [d subs' frs'|]; [|discriminate].
+    destruct (can_fields (d_kind d)) eqn:Ec; [|discriminate].
+    destruct (ideals_evals ct es H _ G2 C2 I2) as [ns E2].
+    inversion Hs as [k0 d0 Hnth Hv0 Hf0 | d0 s0 s0' f0 f0' Hf0 Hs0 Hfr0]; subst.
+    + exfalso. rewrite (store0_no_fields ct _ _ _ _ Hw Hnth) in Ec. discriminate.
+    + simpl. rewrite E0. cbv iota beta. rewrite Ec, evals_fix, E2. eauto.
+  - simpl in Hg. apply andb_true_iff in Hg as [G1 G2]. simpl in Hcf, Hi.
+    destruct (ideal ct e) as [ni0|] eqn:I1; [|discriminate].
+    destruct (IHe _ G2 Hcf eq_refl) as [n0 E0].
+    destruct (recv_fresh_inline _ _ _ _ _ G1 E0) as [d [subs [frs ->]]].
+    simpl. rewrite E0. eauto.
+  - simpl in Hg. rewrite g_shared_fix in Hg.
+    apply andb_true_iff in Hg as [G12 G3]. apply andb_true_iff in G12 as [G1 G2].
+    simpl in Hcf. rewrite g_conform_fix in Hcf. apply andb_true_iff in Hcf as [C1 C2].
+    simpl in Hi. rewrite ideals_fix in Hi.
+    destruct (ideal ct e) as [ni0|] eqn:I1; [|discriminate].
+    destruct (ideals ct es) as [nis|] eqn:I2; [|destruct ni0; discriminate].
+    destruct (IHe _ G2 C1 eq_refl) as [n0 E0].
+    pose proof (eval_sim ct Hw _ _ _ _ G2 C1 E0 I1) as Hs.
+    destruct (recv_fresh_inline _ _ _ _ _ G1 E0) as [d [subs [frs ->]]].
+    apply sim_N_inv in Hs as [subs' [frs' [-> _]]].
+    destruct (can_on (d_kind d)) eqn:Ec; [|discriminate].
+    destruct (ideals_evals ct es H _ G3 C2 I2) as [ns E2].
+    simpl. rewrite E0. cbv iota beta. rewrite Ec, evals_fix, E2. eauto.
+Qed.
+
+Lemma thread_cons {St X Y} (g : St -> X -> option (St * Y)) s x r :
+  thread g s (x :: r) = match g s x with
+                        | Some (s1, y) => match thread g s1 r with
+                                          | Some (s2, ys) => Some (s2, y :: ys)
+                                          | None => None end
+                        | None => None end.
+Proof. reflexivity. Qed.
+
+Section Total.
+Context {A : Type} (pj : var -> A) (st : store) (Hp : pristine st).
+
+Definition totalB (f : nat) : Prop := forall idx s n ni isl,
+  fst s = st -> sim st n ni -> node_sel pj f ni = Some isl ->
+  exists s' r, to_ast (S f) idx s n = Some (s', r).
+
+Lemma T_list f (IH : totalB f) idx : forall xs xis, Forall2 (sim st) xs xis ->
+  forall isls, omap (node_sel pj f) xis = Some isls ->
+  forall s, fst s = st -> exists s' rs, thread (to_ast (S f) idx) s xs = Some (s', rs) /\ fst s' = st.
+Proof.
+  induction 1 as [|x xi xs xis Hx Hxs IHl]; intros isls Hi s Hs; simpl in Hi.
+  { exists s, []. split; [reflexivity | exact Hs]. }
+  destruct (node_sel pj f xi) as [a|] eqn:N1; [|discriminate].
+  destruct (omap (node_sel pj f) xis) as [b|] eqn:N2; [|discriminate].
+  destruct (IH idx s x xi a Hs Hx N1) as [s1 [r E1]].
+  pose proof (to_ast_pristine st Hp _ _ _ _ _ _ Hs E1) as Hs1.
+  destruct (IHl _ eq_refl s1 Hs1) as [s2 [rs [E2 Hs2]]].
+  rewrite thread_cons, E1, E2. eauto.
+Qed.
+
+Lemma T_frags f (IH : totalB f) idx : forall frs frsi, Forall2 (fragrel st) frs frsi ->
+  forall isls,
+  omap (fun fr : string * list node => option_map (SI (fst fr)) (omap (node_sel pj f) (snd fr))) frsi = Some isls ->
+  forall s, fst s = st -> exists s' frs', thread (frag_step (S f) idx) s frs = Some (s', frs').
+Proof.
+  induction 1 as [|x xi xs xis [Hk Hx] Hxs IHl]; intros isls Hi s Hs; simpl in Hi.
+  { exists s, []. reflexivity. }
+  destruct (omap (node_sel pj f) (snd xi)) as [a|] eqn:N1; [|discriminate]. simpl in Hi.
+  destruct (omap (fun fr : string * list node =>
+                    option_map (SI (fst fr)) (omap (node_sel pj f) (snd fr))) xis) as [b|] eqn:N2; [|discriminate].
+  destruct (T_list f IH idx _ _ Hx _ N1 s Hs) as [s1 [cs [E1 Hs1]]].
+  destruct (IHl _ eq_refl s1 Hs1) as [s2 [frs2 E2]].
+  rewrite thread_cons. unfold frag_step at 1. rewrite E1, E2. eauto.
+Qed.
+
+Lemma totalB_all : forall f, totalB f.
+Proof.
+  induction f as [|f IH]; intros idx s n ni isl Hs Hsim Hn; [discriminate|].
+  destruct Hsim as [k d Hk Hv Hf | d subs subs' frs frs' Hf Hsubs Hfrs].
+  - simpl. rewrite Hs, Hk, Hv. simpl. eauto.
+  - simpl in Hn.
+    destruct (omap (node_sel pj f) subs') as [ss|] eqn:N1; [|discriminate].
+    destruct (omap (fun fr : string * list node =>
+                      option_map (SI (fst fr)) (omap (node_sel pj f) (snd fr))) frs') as [fs|] eqn:N2;
+      [|discriminate].
+    destruct (collect_total idx (d_vars d) (snd s)) as [[used1 fmt] Ec].
+    destruct (T_list f IH idx _ _ Hsubs _ N1 (fst s, used1) Hs) as [s2 [rs [E1 Hs2]]].
+    destruct (T_frags f IH idx _ _ Hfrs _ N2 s2 Hs2) as [s3 [frs2 E2]].
+    change (to_ast (S (S f)) idx s (N d subs frs)) with
+      (match collect idx (snd s) (d_vars d) with
+       | Some (used1, fmt) =>
+           match thread (to_ast (S f) idx) (fst s, used1) subs with
+           | Some (s2, rs) =>
+               match thread (frag_step (S f) idx) s2 frs with
+               | Some (s3, frs') =>
+                   Some (s3, (node_sl d subs frs fmt rs frs',
+                              N (set_fmt d fmt) (map (fun r => snd r) rs)
+                                (map (fun fr => (fst fr, map (fun r => snd r) (snd fr))) frs')))
+               | None => None end
+           | None => None end
+       | None => None end).
+    rewrite Ec, E1, E2. eauto.
+Qed.
+End Total.
+
+Lemma build_sels_from_total st (Hp : pristine st) f : forall ns nis, Forall2 (sim st) ns nis ->
+  forall isls, omap (node_sel tv f) nis = Some isls ->
+  forall idx s, fst s = st -> exists s' sns, build_sels_from (S f) idx s ns = Some (s', sns).
+Proof.
+  induction 1 as [|x xi xs xis Hx Hxs IHl]; intros isls Hi idx s Hs; simpl in Hi.
+  { exists s, []. reflexivity. }
+  destruct (node_sel tv f xi) as [a|] eqn:N1; [|discriminate].
+  destruct (omap (node_sel tv f) xis) as [b|] eqn:N2; [|discriminate].
+  destruct (totalB_all tv st Hp f idx s x xi a Hs Hx N1) as [s1 [r E1]].
+  pose proof (to_ast_pristine st Hp _ _ _ _ _ _ Hs E1) as Hs1.
+  destruct (IHl _ eq_refl (S idx) s1 Hs1) as [s2 [sns E2]].
+  exists s2, (r :: sns).
+  change (build_sels_from (S f) idx s (x :: xs)) with
+    (match to_ast (S f) idx s x with
+     | Some (s1, sn) => match build_sels_from (S f) (S idx) s1 xs with
+                        | Some (s2, sns) => Some (s2, sn :: sns)
+                        | None => None end
+     | None => None end).
+  rewrite E1, E2. reflexivity.
+Qed.
+
+(* No exception + the composed statement: an operation that denotes a request (its ideal exists and
+   fits in depth f), free of shared mutations, with well-typed values, ALWAYS builds, leaves the
+   import-time store untouched, and its request is the ideal one *)
+Theorem doc_valid_total ct f es idl :
+  wf_ct ct -> forallb g_shared es = true -> forallb (g_conform ct) es = true ->
+  ideal_sels ct f es = Some idl ->
+  exists rq, run_op ct (S f) (store0 ct) es = Some (store0 ct, rq) /\
+    resolves (look_req rq) (r_sels rq) = Some idl /\
+    NoDup (keys (r_vardefs rq)) /\
+    keys (r_vardefs rq) = flat_map sel_vars (r_sels rq) /\
+    keys (r_values rq) = keys (r_vardefs rq).
+Proof.
+  intros Hw Hg Hcf Hi. pose proof Hi as Hi0. unfold ideal_sels in Hi.
+  destruct (ideals ct es) as [nis|] eqn:Ei; [|discriminate].
+  assert (Hall : Forall (fun e => forall ni, g_shared e = true -> g_conform ct e = true ->
+                   ideal ct e = Some ni -> exists n, eval ct e (store0 ct) = Some (store0 ct, n)) es).
+  { apply Forall_forall. intros e _ ni. apply ideal_eval. exact Hw. }
+  destruct (ideals_evals ct es Hall _ Hg Hcf Ei) as [ns Ee].
+  pose proof (evals_sim_all ct Hw _ _ _ _ Hg Hcf Ee Ei) as Hsim.
+  destruct (build_sels_from_total _ (store0_pristine ct) f _ _ Hsim _ Hi 0 (store0 ct, []) eq_refl)
+    as [[st1 u1] [sns Eb]].
+  assert (Er : exists st' rq, run_op ct (S f) (store0 ct) es = Some (st', rq)).
+  { unfold run_op. rewrite Ee. unfold build_request, build_sels. rewrite Eb. eauto. }
+  destruct Er as [st' [rq Er]].
+  destruct (doc_valid_store0 _ _ _ _ _ _ _ Hw Hg Hcf Er Hi0) as [H1 [H2 [H3 [H4 ->]]]].
+  exists rq. auto.
+Qed.
